@@ -801,10 +801,38 @@ def gen_C12():
         for n in tree.body:
             if isinstance(n, (ast.Assign, ast.Expr)) and any(isinstance(c, ast.Call) and "random" in ast.unparse(c.func) for c in ast.walk(n)):
                 module_level.append(rel)
+    # client state: what persists on the client (set in __init__) and what every estimate call sets anew before it is read
+    src, tree = _parse("client.py")
+    init = _find(tree, "ModelClient", "__init__")
+    ge = _find(tree, "ModelClient", "get_estimates")
+    persistent = sorted({ast.unparse(t) for n in ast.walk(init) if isinstance(n, ast.Assign) for t in n.targets if ast.unparse(t).startswith("self.")})
+    per_call = []
+    for n in ast.walk(ge):
+        if isinstance(n, ast.Assign):
+            for t in n.targets:
+                tt = ast.unparse(t)
+                if tt.startswith("self.") and "[" not in tt:
+                    v = ast.unparse(n.value).replace("\n", " ")
+                    per_call.append(f"{tt} = {v.split('(')[0] + '(…)' if '(' in v else v}")
+    seen_pc = []
+    for x in per_call:
+        if x not in seen_pc:
+            seen_pc.append(x)
+    # a model object also holds a generator: where it is created
+    src2, tree2 = _parse("models/BootstrapElectionModel.py")
+    gens = []
+    for cls_node in tree2.body:
+        if isinstance(cls_node, ast.ClassDef):
+            for fn_ in cls_node.body:
+                if isinstance(fn_, ast.FunctionDef):
+                    for n in ast.walk(fn_):
+                        if isinstance(n, ast.Assign) and any(ast.unparse(t) == "self.rng" for t in n.targets):
+                            gens.append(f"{cls_node.name}.{fn_.name}: self.rng = {ast.unparse(n.value)}")
     out = ["def random_sites : List (String × Bool) := [" + ", ".join(f'("{a}", {"true" if b else "false"})' for a, b, _ in sites) + "]\n",
            "def seed_expressions : List String := [" + ", ".join('"' + c.replace('"', "'") + '"' for _, _, c in sites) + "]\n",
            "def module_level_generators : List String := [" + ", ".join(f'"{m}"' for m in module_level) + "]\n",
-           "def aggregate_order : List String := [" + ", ".join(f'"{o}"' for o in order) + "]\n"]
+           "def aggregate_order : List String := [" + ", ".join(f'"{o}"' for o in order) + "]\n",
+           _strlist("client_persistent_state", persistent), _strlist("client_set_per_call", seen_pc), _strlist("generator_created", gens)]
     return out
 
 
